@@ -29,7 +29,7 @@ func runC19(c *Ctx) {
 	p := c.Prog
 	c.Rule("R19.1", "the expectation caches are touched only under their mutex, exclusively for writes, and never leak internal maps", 12)
 	c.Rule("R19.2", "no worker-reachable function writes package state or a field of a start-up-constructed (shared) receiver", 3)
-	c.Rule("R19.3", "grace-timer and expectation keys derive from an object UID or from namespace and name together", 9)
+	c.Rule("R19.3", "grace-timer and expectation keys derive from an object UID or from namespace and name together", 6)
 	c.Rule("R19.4", "every Lua run builds its own VM; none is stored", 2)
 	c.Rule("R19.6", "the dynamic watch registry records a kind only after the watch was added", 2)
 
